@@ -322,6 +322,10 @@ fn eval_square(h: i64, l: i64, high: f64, low: f64, delay: i64, n: usize) -> Vec
         if x.to_bits() != e.to_bits() && !f_cf {
             f_cf = true;
             let at = if m == 0 || m == h as i128 { "transition sample" } else { "inside a level" };
+            // the recorded late-transition defect needs a period whose reciprocal does not multiply back to 1:
+            // fl(fl(1/d)*d) = 1 exactly for every d < 49 (proved: Props/C20/FloatGeneratorsB.duration_step_exact_below_49),
+            // so a deviation with a shorter period is a different defect and gets its own site
+            let at = if d < 49 { format!("{} @period<49", at) } else { at.to_string() };
             out.push(finding(&format!("InfiniteSquare != closed form ({})", at), "level differs from: high iff ((i-delay) mod (high_duration+low_duration)) < high_duration", format!("index {} (position {} in period {}): {}", i, m, d, fm(x)), &format!("{:e}", e)));
         }
     }
@@ -694,6 +698,16 @@ pub fn run(cx: &mut Ctx) {
             let (hi, lo) = levels[(i + j) % 3];
             gp.push(json!({"k":"sawtooth","p":p.to_string(),"high":hx(hi),"low":hx(lo),"delay":delay.to_string(),"n":n,
                 "_":format!("InfiniteSawtooth::new({},{:?},{:?},{})", p, hi, lo, delay)}));
+        }
+    }
+    // every small duty cycle without delay (and two delays): with periods below 49 the embedded step is exactly 1.0
+    // (Props/C20/FloatGeneratorsB), so the schedule must be exact there
+    for a in 1..=12i64 {
+        for b in 1..=12i64 {
+            for delay in [0i64, 1, -7] {
+                gp.push(json!({"k":"square","h":a.to_string(),"l":b.to_string(),"high":hx(2.5),"low":hx(-1.5),"delay":delay.to_string(),"n":200,
+                    "_":format!("InfiniteSquare::new({},{},2.5,-1.5,{})", a, b, delay)}));
+            }
         }
     }
     for _ in 0..nrand {
